@@ -76,11 +76,27 @@ theorem LiteralUnique.afterWild {c : Ctx α} {parts : List String} (h : LiteralU
     LiteralUnique c (afterWild parts) :=
   fun name hn => h name (GlobL.afterWild_subset parts name hn)
 
-/-- pairwise different sibling names (under the resolver's comparison) make every literal component
-unambiguous -/
-theorem literalUnique_of_siblingUnique (c : Ctx α) (hsu : SiblingUnique c) (parts : List String) :
+/-- sibling names pairwise different under `re.IGNORECASE`, the comparison `glob` itself makes -/
+abbrev SiblingUniqueRe (c : Ctx α) : Prop := GlobL.SiblingUniqueRe c
+
+/-- … make every literal component unambiguous, whatever the characters of the names -/
+theorem literalUnique_of_siblingUniqueRe (c : Ctx α) (hsu : SiblingUniqueRe c) (parts : List String) :
     LiteralUnique c parts :=
-  fun name _ hw b => GlobL.literal_unique_of_siblingUnique c hsu name hw b
+  fun name _ hw b => GlobL.literal_unique_of_siblingUniqueRe c hsu name hw b
+
+/-- pairwise different sibling names under the comparison of `get` (`str.upper()`) make every literal
+component unambiguous where `str.upper()` and `re.IGNORECASE` agree on the characters of the names
+(`CaseAgree`: always without `ignorecase`, for ASCII names, for the regular alphabet; *not* for the
+KELVIN/ANGSTROM/OHM signs — children `k` and `K` (U+212A) differ for `get` and both match the
+component `k` of a `glob`) -/
+theorem literalUnique_of_siblingUnique (c : Ctx α) (hsu : SiblingUnique c)
+    (hca : CaseAgree c (fun _ => False)) (parts : List String) :
+    LiteralUnique c parts :=
+  fun name _ hw b => GlobL.literal_unique_of_siblingUnique c hsu hca name hw b
+
+/-- the two notions of sibling-uniqueness coincide over case-regular names -/
+theorem siblingUniqueRe_iff (c : Ctx α) (hca : CaseAgree c (fun _ => False)) :
+    SiblingUniqueRe c ↔ SiblingUnique c := GlobL.siblingUniqueRe_iff c hca
 
 /-- The statement needs an assumption: if a literal component matches two siblings and the remainder
 fails below one of them, `__find` re-raises and the results below the other sibling are lost; an
@@ -97,10 +113,16 @@ theorem globStrict_ok_eq_denote (c : Ctx α) (hr : c.relax = false) (parts : Lis
   exact GlobL.globP_strict_ok c hr parts hu a l hok
 
 theorem globStrict_ok_eq_denote_of_siblingUnique (c : Ctx α) (hr : c.relax = false)
-    (hsu : SiblingUnique c) (parts : List String) (a : Addr)
+    (hsu : SiblingUnique c) (hca : CaseAgree c (fun _ => False)) (parts : List String) (a : Addr)
     (k : Cache) (h : CacheInv k) (l : List Addr) (hok : (globM false c parts a k).1 = .ok l) :
     l = denote c parts a :=
-  globStrict_ok_eq_denote c hr parts (literalUnique_of_siblingUnique c hsu _) a k h l hok
+  globStrict_ok_eq_denote c hr parts (literalUnique_of_siblingUnique c hsu hca _) a k h l hok
+
+theorem globStrict_ok_eq_denote_of_siblingUniqueRe (c : Ctx α) (hr : c.relax = false)
+    (hsu : SiblingUniqueRe c) (parts : List String) (a : Addr)
+    (k : Cache) (h : CacheInv k) (l : List Addr) (hok : (globM false c parts a k).1 = .ok l) :
+    l = denote c parts a :=
+  globStrict_ok_eq_denote c hr parts (literalUnique_of_siblingUniqueRe c hsu _) a k h l hok
 
 /-- without any assumption on sibling names: every node strict `glob` returns is denoted -/
 theorem globStrict_ok_subset_denote (c : Ctx α) (parts : List String) (a : Addr)
